@@ -154,6 +154,7 @@ class Walker:
         self.keep = set(keep or ())     # callee names that stay calls (never inlined)
         self.const_heap = {}            # canon('self.attr') -> defining expression (compile-time constants)
         self.read_heap = True           # attribute reads are replaced by the value stored earlier on the path
+        self.split_ifexp = False        # fork the path at a conditional expression whose test is open
 
     # ------------------------------------------------------------------ API
     def paths(self, func, bind=None, cls=None, depth=0):
@@ -201,10 +202,36 @@ class Walker:
         return live
 
     def stmt(self, s, st, depth):
+        if self.split_ifexp and isinstance(s, (ast.Assign, ast.AugAssign, ast.Return, ast.Expr, ast.AnnAssign)):
+            sp = self._split_on_ifexp(s, st, depth)
+            if sp is not None:
+                return sp
         m = getattr(self, 's_' + type(s).__name__, None)
         if m is None:
             raise Undecided('statement kind %s not supported (line %d)' % (type(s).__name__, s.lineno))
         return m(s, st, depth)
+
+    def _split_on_ifexp(self, s, st, depth):
+        """``x = f(a if c else b)`` is walked as ``if c: x = f(a) else: x = f(b)`` when c is a pure
+        test that this path has not decided yet: value-level conditionals become path guards"""
+        value = getattr(s, 'value', None)
+        if value is None:
+            return None
+        target = None
+        for n in _unconditional_nodes(value):
+            if isinstance(n, ast.IfExp) and _pure_test(n.test):
+                target = n
+                break
+        if target is None:
+            return None
+
+        # two copies of the statement, each with one arm in place of the conditional
+        def with_arm(arm):
+            return _copy_replacing(s, target, arm)
+        new = ast.If(test=target.test, body=[with_arm(target.body)], orelse=[with_arm(target.orelse)])
+        ast.copy_location(new, s)
+        ast.fix_missing_locations(new)
+        return self.s_If(new, st, depth)
 
     def s_Pass(self, s, st, d): return [(st, None)]
     def s_Global(self, s, st, d): return [(st, None)]
@@ -630,6 +657,50 @@ def const_truth(t):
             if isinstance(op, ast.Gt): return a > b
             if isinstance(op, ast.GtE): return a >= b
     return None
+
+
+def _copy_replacing(node, old, new):
+    """deep copy of ``node`` in which the sub-node ``old`` (by identity) is ``new``"""
+    if node is old:
+        return new
+    if isinstance(node, ast.AST):
+        c = copy.copy(node)
+        for f, v in ast.iter_fields(node):
+            if isinstance(v, ast.AST):
+                setattr(c, f, _copy_replacing(v, old, new))
+            elif isinstance(v, list):
+                setattr(c, f, [_copy_replacing(x, old, new) for x in v])
+        return c
+    return node
+
+
+def _unconditional_nodes(e):
+    """sub-expressions that are evaluated whenever ``e`` is (not inside the later operands of
+    and / or, the arms of another conditional, a lambda or a comprehension)"""
+    yield e
+    if isinstance(e, ast.BoolOp):
+        yield from _unconditional_nodes(e.values[0])
+    elif isinstance(e, ast.IfExp):
+        yield from _unconditional_nodes(e.test)
+    elif isinstance(e, (ast.Lambda, ast.ListComp, ast.SetComp, ast.DictComp, ast.GeneratorExp)):
+        return
+    else:
+        for f, v in ast.iter_fields(e):
+            if isinstance(v, ast.AST):
+                yield from _unconditional_nodes(v)
+            elif isinstance(v, list):
+                for x in v:
+                    if isinstance(x, ast.AST):
+                        yield from _unconditional_nodes(x)
+
+
+def _pure_test(t):
+    for n in ast.walk(t):
+        if isinstance(n, ast.Call) and not (isinstance(n.func, ast.Name) and n.func.id in ('isinstance', 'callable', 'hasattr', 'len')):
+            return False
+        if isinstance(n, (ast.NamedExpr, ast.Await, ast.Yield, ast.YieldFrom, ast.Lambda)):
+            return False
+    return True
 
 
 def _load(t):
